@@ -63,11 +63,12 @@ def run(ctx):
     tasks.sort(key=lambda t: -weight[t[1]] * len(t[2]))
     mp = multiprocessing.get_context("fork")
     methods, fc_cases = {}, 0
-    soft, hard = [], []
+    soft, hard, worker_errors = [], [], []
     with mp.Pool(processes=min(16, os.cpu_count() or 4), maxtasksperchild=1) as pool:
         for res in pool.imap_unordered(R.task, tasks):
             if res["error"]:
-                raise vf.InfraError("worker for %s crashed:\n%s" % (res["module"], res["error"]))
+                # never abort here: the other workers' findings (failing inputs) are what gets reported; see below
+                worker_errors.append(res)
             methods[res["module"]] = max(methods.get(res["module"], 0), res["methods"])
             fc_cases += res["fc_cases"]
             for k in res["keys"]: ctx.case(key=k, nontrivial=True)
@@ -78,26 +79,48 @@ def run(ctx):
             ctx.traces_validated += res["lines"]
             for d in res["diffs"]:
                 (soft if d.get("soft") else hard).append(d)
+    for res in worker_errors:
+        if res.get("error_in_library"):
+            # the tree under test raised where the harness does not even expect an error: a failure of the code, with what is known of the input
+            hard.append({"key": "%s:worker" % res["module"], "vkey": "library-exception:%s:worker" % res["module"], "module": res["module"],
+                         "what": "the library raised while module %s was driven (no unit of work isolated it): %s" % (res["module"], res["error"].strip().splitlines()[-1][:300]),
+                         "traceback": res["error"][-4000:]})
+    infra = [r for r in worker_errors if not r.get("error_in_library")]
+    if infra and not hard:
+        raise vf.InfraError("worker for %s crashed:\n%s" % (infra[0]["module"], infra[0]["error"]))
+    if infra:
+        ctx.extra["worker_errors"] = ["%s: %s" % (r["module"], r["error"].strip().splitlines()[-1][:300]) for r in infra]
     seen_fc = set()
     # one violation per key: prefer the most telling failing input (a later connection misbehaving) over its cause
-    hard.sort(key=lambda d: 0 if "does not behave like a fresh pair" in d["what"] else (1 if "struct_header_auto says" in d["what"] else 2))
+    hard.sort(key=lambda d: 0 if "does not behave like a fresh pair" in d["what"] else (1 if "struct_header_auto says" in d["what"] else (3 if d.get("vkey", "").startswith("library-exception:") else 2)))
     for d in hard:
         vkey = d.get("vkey", d["key"])
         if vkey.startswith("forward-compat:"): seen_fc.add(vkey)
-        ctx.violation(vkey, d["what"], dict(d, how="harness/schema_rpc.py: real generated classes of nintendo.nex.<module>, settings (nex.version, struct_header, pid_size)=cfg"))
+        if vkey.startswith("struct-roundtrip:"): seen_fc.add("forward-compat:" + vkey[len("struct-roundtrip:"):])    # a failing input for that structure is reported
+        ctx.violation(vkey, d["what"], dict({"how": "harness/schema_rpc.py: real generated classes of nintendo.nex.<module>, settings (nex.version, struct_header, pid_size)=cfg"}, **d))
     for name, sname, out in failing_obl:
         if "forward-compat:%s:%s" % (name, sname) not in seen_fc:
             ctx.corr_break("obligation:%s:rev_ascending_%s" % (name, sname),
                            "revisions of %s (%s.proto) are not ascending (max_version does not bound every reachable revision block) but no splice broke the real decoder" % (sname, name),
                            {"file": name, "struct": sname, "lean_output": out[-1200:]})
+    # the client's call matching differs from the model on an observed burst, and no caller was affected
+    mux_soft = [d for d in soft if d.get("model_disagreements")]
+    soft = [d for d in soft if not d.get("model_disagreements")]
+    if mux_soft and not any(v[0].startswith("concurrent-calls:") for v in ctx.violations):
+        ctx.corr_break("call-matching-correspondence", "%d bursts of concurrent calls on which RMCClient's call matching (call ids, returned bodies) differs from the model although every caller got its own values: %s" % (
+            len(mux_soft), mux_soft[0]["what"][:300]), mux_soft[0])
     if soft and not ctx.violations and not ctx.known_hits:
-        ctx.corr_break("schema-splice-correspondence", "%d spliced inputs decode differently in the real code and the interpreter" % len(soft), soft[0])
+        ctx.corr_break("model-correspondence", "%d inputs on which the real code and the model differ (spliced structures / call matching), none of which breaks the property: %s" % (len(soft), soft[0]["what"][:200]), soft[0])
     ctx.programs = sum(methods.values())
     ctx.exhaustive = True
     ctx.extra["modules"] = len(envs)
     ctx.extra["methods"] = sum(methods.values())
     ctx.extra["forward_compat_splices"] = fc_cases
     ctx.extra["connection_sequence_steps"] = sum(c for t, c in ctx.tags.items() if t.startswith("seq:"))
+    ctx.extra["concurrent_bursts"] = sum(c for t, c in ctx.tags.items() if t.startswith("burst:") and "-in-flight:" in t)
+    ctx.extra["calls_made_in_bursts"] = ctx.tags.get("burst:calls-matched", 0)
+    ctx.extra["non_ascii_repetitions"] = sum(c for t, c in ctx.tags.items() if t.startswith("rpc-nonascii-rep:") and not t.endswith("string-positions"))
+    ctx.extra["non_ascii_string_positions"] = ctx.tags.get("rpc-nonascii-rep:string-positions", 0)
     ctx.extra["versioned_structures"] = sum(len([s for s in e.versioned() if s["name"] in e.structs]) for e in envs.values())
     ctx.extra["disagreements"] = len(hard) + len(soft)
     ctx.assumptions.append("the PRUDP layer between the two RMCClient instances is replaced by a pair of in-memory queues (reliable in-order delivery is C01's property)")
